@@ -1209,10 +1209,15 @@ func (g *Gen) oneItem() {
 	n := g.r.Intn(20)
 	if g.o.NestedGeneric && !g.familyDone && g.r.Chance(1, 6) {
 		g.familyDone = true
-		if g.r.Chance(1, 2) {
+		switch g.r.Intn(4) {
+		case 0:
 			g.itemGenericFamily()
-		} else {
+		case 1:
 			g.itemGenericNesting()
+		case 2:
+			g.itemGenericWrapped()
+		default:
+			g.itemGenericSteps()
 		}
 		return
 	}
@@ -1890,5 +1895,89 @@ func (g *Gen) itemQualifiedVsField() {
 		name := g.fresh("useQ")
 		g.use(recItem)
 		g.push("let", name, "let "+name+" (r: "+rec+") =\n  let "+pkg+" = r\n  ("+pkg+"."+fn+", "+pkg+".Name"+k+")\n\n")
+	}
+}
+
+// itemGenericWrapped is a schema: a generic union wrapped around a generic record that itself contains the same
+// union at another instance (History<T> = {Last: Opt<Slot<T>>; Len: int}, Slot<T> = {Cur: T; Prev: Opt<T>}):
+// Opt<T> inside Opt<Slot<T>> is another instance, not a recursive reference. A consumer of Slot<int> and an
+// unrelated consumer of History<int>.
+func (g *Gen) itemGenericWrapped() {
+	k := g.fresh("W")
+	opt, slot, hist := "Opt"+k, "Slot"+k, "Hist"+k
+	optItem := len(g.items)
+	g.push("type", opt, "type "+opt+"<T> =\n  | Some"+k+" of T\n  | None"+k+"\n\n")
+	slotItem := len(g.items)
+	g.use(optItem)
+	g.declSets["Cur"+k+",Prev"+k] = true
+	g.push("type", slot, "type "+slot+"<T> = {Cur"+k+": T; Prev"+k+": "+opt+"<T>}\n\n")
+	histItem := len(g.items)
+	g.use(optItem)
+	g.use(slotItem)
+	g.declSets["Last"+k+",Len"+k] = true
+	g.push("type", hist, "type "+hist+"<T> = {Last"+k+": "+opt+"<"+slot+"<T>>; Len"+k+": int}\n\n")
+	base := []string{"int", "string", "bool"}[g.r.Intn(3)]
+	{
+		name := g.fresh("prevOf")
+		g.use(slotItem)
+		g.use(optItem)
+		g.push("let", name, "let "+name+" (s:"+slot+"<"+base+">) =\n  s.Prev"+k+"\n\n")
+	}
+	{
+		name := g.fresh("lenOf")
+		g.use(histItem)
+		g.use(slotItem)
+		g.use(optItem)
+		g.push("let", name, "let "+name+" (h:"+hist+"<"+base+">) =\n  h.Len"+k+"\n\n")
+	}
+	if g.r.Chance(1, 2) {
+		name := g.fresh("curOf")
+		g.use(slotItem)
+		g.use(optItem)
+		g.push("let", name, "let "+name+" (s:"+slot+"<"+base+">) =\n  s.Cur"+k+"\n\n")
+	}
+}
+
+// itemGenericSteps is a schema: a generic union whose case carries another generic union at the same parameter
+// (Step<T> = | Done of T | More of Opt<T>), producers that go through inference only (no annotation), a relay
+// chain, and unrelated polymorphic helpers that nest the two unions the other way round (Some (Done v)).
+func (g *Gen) itemGenericSteps() {
+	k := g.fresh("S")
+	opt, step := "Opt"+k, "Step"+k
+	optItem := len(g.items)
+	g.push("type", opt, "type "+opt+"<T> =\n  | Some"+k+" of T\n  | None"+k+"\n\n")
+	stepItem := len(g.items)
+	g.use(optItem)
+	g.push("type", step, "type "+step+"<T> =\n  | Done"+k+" of T\n  | More"+k+" of "+opt+"<T>\n\n")
+	lit := []string{"1", "\"s\"", "true"}[g.r.Intn(3)]
+	mk := g.fresh("mkStep")
+	mkItem := len(g.items)
+	g.use(stepItem)
+	g.use(optItem)
+	g.push("let", mk, "let "+mk+" () =\n  Done"+k+" "+lit+"\n\n")
+	relay := g.fresh("relay")
+	relayItem := len(g.items)
+	g.use(mkItem)
+	g.use(stepItem)
+	g.use(optItem)
+	g.push("let", relay, "let "+relay+" () =\n  "+mk+" ()\n\n")
+	{
+		name := g.fresh("useRelay")
+		g.use(relayItem)
+		g.use(stepItem)
+		g.use(optItem)
+		g.push("let", name, "let "+name+" () =\n  "+relay+" ()\n\n")
+	}
+	doneOpt := g.fresh("doneOpt")
+	doneItem := len(g.items)
+	g.use(stepItem)
+	g.use(optItem)
+	g.push("let", doneOpt, "let "+doneOpt+" v =\n  Some"+k+" (Done"+k+" v)\n\n")
+	{
+		name := g.fresh("firstStep")
+		g.use(doneItem)
+		g.use(stepItem)
+		g.use(optItem)
+		g.push("let", name, "let "+name+" () =\n  "+doneOpt+" "+lit+"\n\n")
 	}
 }
